@@ -1727,7 +1727,26 @@ impl Gen {
             Some(i) => AXIS_NAMES[i].to_string(),
             None => format!("t{}", self.id()),
         };
-        self.stmts.push(format!("let {name} = {};", te.s));
+        // now and then the bound expression is evaluated where Rhai resolves
+        // names dynamically instead of through pre-computed scope slots:
+        // inside a closure that captures the names it uses, or inside
+        // `eval("...")`. Names bound by the script (let-bound trees, re-bound
+        // axis names, numbers) must still win over the injected x/y/z there
+        let small = te.depth <= 10 && te.size <= 60 && !te.s.contains('\\');
+        match if small { self.rng.weighted(&[88, 6, 6]) } else { 0 } {
+            1 => {
+                let f = format!("f{}", self.id());
+                self.cov("binding_styles", "closure_call");
+                self.push_plain_stmt(format!("let {f} = || {};", te.s));
+                self.stmts.push(format!("let {name} = {f}.call();"));
+            }
+            2 => {
+                self.cov("binding_styles", "eval_string");
+                let quoted = te.s.replace('"', "\\\"");
+                self.stmts.push(format!("let {name} = eval(\"{quoted}\");"));
+            }
+            _ => self.stmts.push(format!("let {name} = {};", te.s)),
+        }
         self.info.push(StmtInfo {
             var: Some((name.clone(), te.t.clone())),
             subs: (subs_start, self.subs.len()),
@@ -1968,6 +1987,9 @@ fn required_coverage() -> Vec<(&'static str, String)> {
     }
     for m in ["named_constant", "const_binding", "let_binding"] {
         v.push(("number_forms", m.to_string()));
+    }
+    for m in ["closure_call", "eval_string"] {
+        v.push(("binding_styles", m.to_string()));
     }
     for m in [
         "tagged:string",
